@@ -375,6 +375,22 @@ def op_kinds(e):
     return out
 
 
+def all_vars(e):
+    """every Variable occurring in e, free or bound (sorted by name for determinism)"""
+    seen, out, st = set(), set(), [e]
+    while st:
+        n = st.pop()
+        if n in seen:
+            continue
+        seen.add(n)
+        if n.is_variable_exp():
+            out.add(n.variable())
+        if n.is_exists() or n.is_forall():
+            out.update(n.variables())
+        st.extend(n.args)
+    return sorted(out, key=lambda v: (v.name, str(v.type)))
+
+
 def depth_of(e):
     memo = {}
 
@@ -392,8 +408,9 @@ def run(ctx):
 
     ok_proofs = ctx.check_props(extra=["theories/Corr/Corr_C11.v"])
     rng = ctx.rng
-    n_worlds = 6 if ctx.quick else 50
-    per_world = 170 if ctx.quick else 700
+    n_worlds = 6 if ctx.quick else 40
+    per_world = 170 if ctx.quick else 500
+    batch = 6 if ctx.quick else 5   # worlds evaluated together: one Coq evaluation (two coqc processes) per batch
     n_interps = 10 if ctx.quick else 16
     max_depth = 4 if ctx.quick else 6
 
@@ -403,129 +420,137 @@ def run(ctx):
     samples = []
     total_cases = 0
 
-    for wi in range(n_worlds):
-        w = W11(rng)
-        em = w.em
-        names = Names()
-        for t in w.all_types():
-            names.ty(t)
-        for t in w.all_types():
-            for o in w.objs[t]:
-                names.obj(o)
-        for f in w.fluents:
-            names.fl(f)
-        for p in w.params:
-            names.par(p)
-        for f in w.ifuns:
-            names.ifun(f)
-        for v in w.free_vars:
-            names.var(v)
-        S = Simplifier(w.env, w.problem)
-        objs_tab = {t: w.objects_of(t) for t in w.all_types()}
-        # interpretations (shared by all the cases of this world); fluent domains here are too big to enumerate, so
-        # sampled: random total, corner, and partial (some fluents undefined)
-        interps = []
-        for k in range(n_interps):
-            fl, par, var, ifun = w.interp(undefined_rate=(0.15 if k % 5 == 4 else 0.0), corner=(k % 3 == 1))
-            interps.append((fl, par, var, ifun))
-        pre = []
-        for k, (fl, par, var, ifun) in enumerate(interps):
-            pre.append("Definition I%d : finterp := %s.\n" % (k, ser_finterp(fl, par, var, ifun, objs_tab, names)))
-        pre.append("Definition IS : list finterp := %s.\n" % glist(["I%d" % k for k in range(n_interps)]))
-        # tables
-        obj_ty = glist([gpair(gn(names.obj(o)), gn(names.ty(o.type))) for t in w.all_types() for o in w.objs[t]])
-        par_ty = glist([gpair(gn(names.par(p)), gn(names.ty(p.type))) for p in w.params if p.type.is_user_type()])
-        fl_ty = glist([gpair(gn(names.fl(f)), gn(names.ty(f.type))) for f in w.fluents if f.type.is_user_type()])
-        anc = glist([gpair(gn(names.ty(t)), glist([gn(names.ty(a)) for a in t.ancestors])) for t in w.all_types()])
-        stat_rows = []
-        for (f, args) in w.ground_fluents():
-            if f in w.static:
-                v = w.problem.initial_value(f(*args))
-                if v is not None:
-                    stat_rows.append("(%s, %s, %s)" % (gn(names.fl(f)), glist([ser_expr(em.ObjectExp(a), names) for a in args]),
-                                                       ser_expr(v, names)))
-        itab_rows = []
-        for (f, args), v in interps[0][3].items():
-            ve = em.Bool(v) if isinstance(v, bool) else em.Int(v)
-            itab_rows.append("(%s, %s, %s)" % (gn(names.ifun(f)), glist([ser_expr(em.Int(a), names) for a in args]), ser_expr(ve, names)))
-        pre.append("Definition OBJ_TY := %s.\nDefinition PAR_TY := %s.\nDefinition FL_TY := %s.\nDefinition ANC := %s.\n"
-                   % (obj_ty, par_ty, fl_ty, anc))
-        pre.append("Definition STAT : list (N * list expr * expr) := %s.\nDefinition ITAB : list (N * list expr * expr) := %s.\n"
-                   % (glist(stat_rows), glist(itab_rows)))
-        pre.append("Definition NOSTAT : list (N * list expr * expr) := [].\n")
+    for b0 in range(0, n_worlds, batch):
+        cases, raw, worlds, all_pre = [], [], {}, []
+        for wi in range(b0, min(n_worlds, b0 + batch)):
+            w = W11(rng)
+            em = w.em
+            names = Names()
+            for t in w.all_types():
+                names.ty(t)
+            for t in w.all_types():
+                for o in w.objs[t]:
+                    names.obj(o)
+            for f in w.fluents:
+                names.fl(f)
+            for p in w.params:
+                names.par(p)
+            for f in w.ifuns:
+                names.ifun(f)
+            for v in w.free_vars:
+                names.var(v)
+            S = Simplifier(w.env, w.problem)
+            objs_tab = {t: w.objects_of(t) for t in w.all_types()}
+            # interpretations (shared by all the cases of this world); fluent domains here are too big to enumerate, so
+            # sampled: random total, corner, and partial (some fluents undefined)
+            interps = []
+            for k in range(n_interps):
+                fl, par, var, ifun = w.interp(undefined_rate=(0.15 if k % 5 == 4 else 0.0), corner=(k % 3 == 1))
+                interps.append((fl, par, var, ifun))
+            pre = []
+            for k, (fl, par, var, ifun) in enumerate(interps):
+                pre.append("Definition I%d_w%d : finterp := %s.\n" % (k, wi, ser_finterp(fl, par, var, ifun, objs_tab, names)))
+            pre.append("Definition IS_w%d : list finterp := %s.\n" % (wi, glist(["I%d_w%d" % (k, wi) for k in range(n_interps)])))
+            # tables
+            obj_ty = glist([gpair(gn(names.obj(o)), gn(names.ty(o.type))) for t in w.all_types() for o in w.objs[t]])
+            par_ty = glist([gpair(gn(names.par(p)), gn(names.ty(p.type))) for p in w.params if p.type.is_user_type()])
+            fl_ty = glist([gpair(gn(names.fl(f)), gn(names.ty(f.type))) for f in w.fluents if f.type.is_user_type()])
+            anc = glist([gpair(gn(names.ty(t)), glist([gn(names.ty(a)) for a in t.ancestors])) for t in w.all_types()])
+            stat_rows = []
+            for (f, args) in w.ground_fluents():
+                if f in w.static:
+                    v = w.problem.initial_value(f(*args))
+                    if v is not None:
+                        stat_rows.append("(%s, %s, %s)" % (gn(names.fl(f)), glist([ser_expr(em.ObjectExp(a), names) for a in args]),
+                                                           ser_expr(v, names)))
+            itab_rows = []
+            for (f, args), v in interps[0][3].items():
+                ve = em.Bool(v) if isinstance(v, bool) else em.Int(v)
+                itab_rows.append("(%s, %s, %s)" % (gn(names.ifun(f)), glist([ser_expr(em.Int(a), names) for a in args]), ser_expr(ve, names)))
+            pre.append("Definition OBJ_TY_w%d := %s.\nDefinition PAR_TY_w%d := %s.\nDefinition FL_TY_w%d := %s.\nDefinition ANC_w%d := %s.\n"
+                       % (wi, obj_ty, wi, par_ty, wi, fl_ty, wi, anc))
+            pre.append("Definition STAT_w%d : list (N * list expr * expr) := %s.\nDefinition ITAB_w%d : list (N * list expr * expr) := %s.\n"
+                       % (wi, glist(stat_rows), wi, glist(itab_rows)))
 
-        cases, raw = [], []
-        for k in range(per_world):
-            r = rng.random()
-            try:
-                if r < 0.45:
-                    e = targeted(w, rng)
-                    stats["targeted"] += 1
-                    tgt = True
-                else:
-                    tgt = False
-                    scope = tuple(w.free_vars) if rng.random() < 0.35 else ()
-                    d = rng.randint(2, max_depth)
-                    e = w.gen_bool(d, scope) if rng.random() < 0.75 else w.gen_num(d, scope)
-            except ZeroDivisionError:
-                continue
-            for with_problem in (False, True):
-                simp = S.simplify if with_problem else (lambda x: x.simplify())
-                exc = None
+            first = len(cases)
+            for k in range(per_world):
+                r = rng.random()
                 try:
-                    o1 = simp(e)
-                    o2 = simp(o1)
-                except (ZeroDivisionError, AssertionError) as ex:
-                    o1 = o2 = None
-                    exc = type(ex).__name__
-                except BaseException as ex:  # any other exception is a failure of the property on this input
-                    ctx.fail("impl-exception", "simplify raised %s on a well-typed expression" % type(ex).__name__,
-                             ["c11", "exception:" + type(ex).__name__] + sorted("op:" + x for x in op_kinds(e)),
-                             {"expression": str(e), "with_problem": with_problem, "exception": repr(ex)}, True)
+                    if r < 0.45:
+                        e = targeted(w, rng)
+                        stats["targeted"] += 1
+                        tgt = True
+                    else:
+                        tgt = False
+                        scope = tuple(w.free_vars) if rng.random() < 0.35 else ()
+                        d = rng.randint(2, max_depth)
+                        e = w.gen_bool(d, scope) if rng.random() < 0.75 else w.gen_num(d, scope)
+                except ZeroDivisionError:
                     continue
-                stats["expressions"] += 1
-                stats["with_problem"] += int(with_problem)
-                if o1 is None:
-                    stats["raised_div0"] += 1
-                elif o1 != e:
-                    stats["changed"] += 1
-                ok_ = op_kinds(e)
-                for x, c in ok_.items():
-                    stats["ops"][x] = stats["ops"].get(x, 0) + c
-                dd = depth_of(e)
-                stats["depth"][dd] = stats["depth"].get(dd, 0) + 1
-                if o1 is not None:
-                    stats["out_kind"][o1.node_type.name] = stats["out_kind"].get(o1.node_type.name, 0) + 1
-                    if "EXISTS" in ok_ and op_kinds(o1).get("EXISTS", 0) < ok_["EXISTS"]:
-                        stats["exists_eliminations"] += 1
-                if scope_has_free(e, w):
-                    stats["free_var_exprs"] += 1
-                n_ops = sum(c for x, c in ok_.items() if not x.endswith("CONSTANT") and x not in ("OBJECT_EXP", "PARAM_EXP", "VARIABLE_EXP"))
-                if n_ops >= 3 and o1 != e:
-                    nontrivial.add((str(e), with_problem))
-                g = ("{| c_obj_ty := OBJ_TY; c_par_ty := PAR_TY; c_fl_ty := FL_TY; c_if_ty := []; c_anc := ANC; c_stat := %s; "
-                     "c_itab := ITAB; c_e := %s; c_out := %s; c_out2 := %s; c_interps := IS |}") % (
-                    "STAT" if with_problem else "NOSTAT", ser_expr(e, names),
-                    gopt(None if o1 is None else ser_expr(o1, names)), gopt(None if o2 is None else ser_expr(o2, names)))
-                cases.append(g)
-                raw.append({"world": wi, "expression": e, "with_problem": with_problem, "out": o1, "out2": o2, "exception": exc,
-                            "targeted": tgt})
-        preamble = "".join(pre)
-        bad = ctx.coq_failing(cases, "ok", imports=IMPORTS, preamble=preamble, shard=max(40, (len(cases) + 3) // 4), ty="case")
+                for with_problem in (False, True):
+                    simp = S.simplify if with_problem else (lambda x: x.simplify())
+                    exc = None
+                    try:
+                        o1 = simp(e)
+                        o2 = simp(o1)
+                    except (ZeroDivisionError, AssertionError) as ex:
+                        o1 = o2 = None
+                        exc = type(ex).__name__
+                    except BaseException as ex:  # any other exception is a failure of the property on this input
+                        ctx.fail("impl-exception", "simplify raised %s on a well-typed expression" % type(ex).__name__,
+                                 ["c11", "exception:" + type(ex).__name__] + sorted("op:" + x for x in op_kinds(e)),
+                                 {"expression": str(e), "with_problem": with_problem, "exception": repr(ex)}, True)
+                        continue
+                    stats["expressions"] += 1
+                    stats["with_problem"] += int(with_problem)
+                    if o1 is None:
+                        stats["raised_div0"] += 1
+                    elif o1 != e:
+                        stats["changed"] += 1
+                    ok_ = op_kinds(e)
+                    for x, c in ok_.items():
+                        stats["ops"][x] = stats["ops"].get(x, 0) + c
+                    dd = depth_of(e)
+                    stats["depth"][dd] = stats["depth"].get(dd, 0) + 1
+                    if o1 is not None:
+                        stats["out_kind"][o1.node_type.name] = stats["out_kind"].get(o1.node_type.name, 0) + 1
+                        if "EXISTS" in ok_ and op_kinds(o1).get("EXISTS", 0) < ok_["EXISTS"]:
+                            stats["exists_eliminations"] += 1
+                    if scope_has_free(e, w):
+                        stats["free_var_exprs"] += 1
+                    n_ops = sum(c for x, c in ok_.items() if not x.endswith("CONSTANT") and x not in ("OBJECT_EXP", "PARAM_EXP", "VARIABLE_EXP"))
+                    if n_ops >= 3 and o1 != e:
+                        nontrivial.add((str(e), with_problem))
+                    g = ("{| c_obj_ty := OBJ_TY_w%d; c_par_ty := PAR_TY_w%d; c_fl_ty := FL_TY_w%d; c_if_ty := []; c_anc := ANC_w%d; c_tau := %s; "
+                         "c_stat := %s; c_itab := ITAB_w%d; c_e := %s; c_out := %s; c_out2 := %s; c_interps := IS_w%d |}") % (
+                        wi, wi, wi, wi, glist([gpair(gn(names.var(v)), gn(names.ty(v.type))) for v in all_vars(e)]),
+                        ("STAT_w%d" % wi) if with_problem else "NOSTAT", wi, ser_expr(e, names),
+                        gopt(None if o1 is None else ser_expr(o1, names)), gopt(None if o2 is None else ser_expr(o2, names)), wi)
+                    cases.append(g)
+                    raw.append({"world": wi, "expression": e, "with_problem": with_problem, "out": o1, "out2": o2, "exception": exc,
+                                "targeted": tgt})
+            worlds[wi] = ({"w": w, "names": names, "interps": interps, "objs_tab": objs_tab})
+            all_pre.append("".join(pre))
+            # coverage: how many (expression, interpretation) pairs are defined (python reference evaluator, sample)
+            mine = raw[first:]
+            for c in mine[:: max(1, len(mine) // 40)]:
+                for (fl, par, var, ifun) in interps:
+                    stats["total_evals"] += 1
+                    if py_eval(c["expression"], (fl, par, var, ifun, objs_tab)) is not None:
+                        stats["defined_evals"] += 1
+            if len(samples) < 4:
+                for c in mine[:2]:
+                    samples.append({"expression": str(c["expression"]), "with_problem": c["with_problem"], "simplified": str(c["out"])})
+        # one evaluation inside Coq for all the worlds (two shards = two coqc processes)
+        preamble = "Definition NOSTAT : list (N * list expr * expr) := [].\n" + "".join(all_pre)
+        bad = ctx.coq_failing(cases, "ok", imports=IMPORTS, preamble=preamble, shard=max(40, (len(cases) + 1) // 2), ty="case")
         total_cases += len(cases)
-        # coverage: how many (expression, interpretation) pairs are defined (python reference evaluator, sample)
-        for c in raw[:: max(1, len(raw) // 40)]:
-            for (fl, par, var, ifun) in interps:
-                stats["total_evals"] += 1
-                if py_eval(c["expression"], (fl, par, var, ifun, objs_tab)) is not None:
-                    stats["defined_evals"] += 1
-        if len(samples) < 4:
-            for c in raw[:2]:
-                samples.append({"expression": str(c["expression"]), "with_problem": c["with_problem"], "simplified": str(c["out"])})
         for i in bad:
             c = raw[i]
+            wc = worlds[c["world"]]
+            w, names, interps, objs_tab = wc["w"], wc["names"], wc["interps"], wc["objs_tab"]
             e, o1, o2 = c["expression"], c["out"], c["out2"]
-            comps = ctx.coq_show("(ok_struct c, ok_value c, ok_fv c, ok_idem c, model_out c, model_raises c, model_div0 c)", imports=IMPORTS,
+            comps = ctx.coq_show("(ok_struct c, ok_value c, ok_fv c, ok_idem c, hyp_ok c, model_out c, model_raises c, model_div0 c)", imports=IMPORTS,
                                  preamble=preamble + "Definition c : case := %s.\n" % cases[i])
             # the property itself, decided by the independent Python evaluator on the implementation's output
             prop_fails, why = False, []
@@ -550,13 +575,18 @@ def run(ctx):
                 if o2 != o1:
                     prop_fails = True
                     why.append("not idempotent: second pass gives %s" % o2)
+            if comps.replace(" ", "").startswith("=(true,true,true,true,false"):
+                # model = implementation and the property holds; only the side condition of the theorem is not met
+                ctx.fail("harness", "generated expression outside the domain of simplify_sound (wfx false): %s" % e,
+                         ["c11", "generator-outside-wfx"], {"expression": str(e), "coq": comps}, False)
+                continue
             tags = ["c11", "with_problem" if c["with_problem"] else "no_problem"] + sorted("op:" + x for x in op_kinds(e))
             tags += ["fails:" + x.split(":")[0].replace(" ", "_") for x in why]
             ctx.fail("corr" if not prop_fails else "oracle",
                      "Simplifier: %s (corr:C11:simplify / simplify_sound)" % ("; ".join(why) if why else "model and implementation disagree"),
                      tags, {"world": c["world"], "expression": str(e), "with_problem": c["with_problem"],
                             "implementation": str(o1), "second_pass": str(o2), "exception": c["exception"],
-                            "coq (ok_struct, ok_value, ok_fv, ok_idem, model_out, model_raises, model_div0)": comps,
+                            "coq (ok_struct, ok_value, ok_fv, ok_idem, hyp_ok, model_out, model_raises, model_div0)": comps,
                             "names": names.table(), "case": cases[i][:6000],
                             "theorem_or_corr": "corr:C11:simplify"}, prop_fails)
     if not ok_proofs:
